@@ -8,6 +8,7 @@ import Driver.IdOps
 import Driver.FlogOps
 import Driver.GateOps
 import Driver.BlockOps
+import Driver.NJOps
 /-
   Line-protocol driver: one operation per input line, one canonical result line per operation.
   Imports Model only (core Lean), so it links as a `lean_exe`.
@@ -50,6 +51,9 @@ def step (st : St) (line : String) : St × String :=
   | none =>
   match blockOps st.blk w with
   | some (b, r) => ({ st with blk := b }, r)
+  | none =>
+  match njOps w with
+  | some r => (st, r)
   | none => (st, "bad-op")
 
 partial def loop (h : IO.FS.Stream) (out : IO.FS.Stream) (st : St) : IO Unit := do
